@@ -37,12 +37,16 @@ var reInv = regexp.MustCompile(`Invariant (\S+) is violated`)
 
 // runTLC runs TLC on module/cfg inside specDir. env adds environment variables (TRACE=...).
 func runTLC(module, cfg string, workers int, serialGC bool, extra []string, env []string, timeout time.Duration, scratch string) TLCRun {
+	return runTLCOpts(module, cfg, workers, serialGC, extra, env, timeout, scratch, nil)
+}
+
+func runTLCOpts(module, cfg string, workers int, serialGC bool, extra []string, env []string, timeout time.Duration, scratch string, jvm []string) TLCRun {
 	meta, err := os.MkdirTemp(scratch, "tlcmeta")
 	if err != nil {
 		return TLCRun{Infra: err}
 	}
 	defer os.RemoveAll(meta)
-	args := []string{"-Xss64m"}
+	args := append([]string{"-Xss64m"}, jvm...)
 	if serialGC {
 		args = append(args, "-XX:+UseSerialGC", "-Xmx6g")
 	} else {
